@@ -248,7 +248,7 @@ def _failures(stage: int, m: int, cfg: int, ext: int, ast: bool = False, own_pat
         if ST == "subscription-operation" and known.c10_subscription_through_query_entry_point():
             return result(True, False)
         if ST == "variable-coercion":
-            query = "query ($v: Int!) { a b: a @skip(if: false) }"
+            query = "query ($v: Int!) { a b: a @skip(if: false) arg(i: $v) }"       # the variable must be USED, or validation refuses the document first
         kw = dict(variables=variables, operation_name=opname, root=root)
         document = parse(query) if AST else query           # the request may also arrive as an already parsed document
         if C == 0:
@@ -257,7 +257,7 @@ def _failures(stage: int, m: int, cfg: int, ext: int, ast: bool = False, own_pat
             res = process_graphql_query(schema, document, executor_cls=Executor, **kw)
         resp = res.response()
         problem = check_response(resp, query, expect_data, allow_nan=ST.startswith("float") and known.c10_nonfinite_floats())
-        if not problem and ST.startswith("variable-coercion-") and ST not in ("variable-coercion-multi",):
+        if not problem and ST.startswith("variable-coercion") and ST not in ("variable-coercion-multi",):
             # anti-vacuity: the request really got as far as variable coercion and was refused there
             if not any("ariable" in str(e.get("message")) and "invalid value" in str(e.get("message")) for e in resp.get("errors", [])):
                 problem = "the request was not refused at variable coercion: %r" % (resp,)
